@@ -17,6 +17,7 @@
  *            ENGINE <name>
  *            Q prec=<bits> phase=<..> pb=<..> sb=<..> flags=<..>          the quality spec as used
  *            P stage=<i> kind=<half|dft|poly0|poly1..3|cubic> kernel=<fn> L=<L> M=<M> rational=<0|1> n=<taps> mult=<..> ...
+ *                      dftStep=<step.integer of a dft stage: M > 0 time-domain decimation, -log2 M frequency-domain>
  *            R in=<frames> out=<frames> clips=<n> delay_end=<..>
  *            END
  *          followed by the raw output frames (otype, interleaved). */
@@ -58,10 +59,10 @@ static void print_plan(soxr_t S)
       L = 1, M = rational? s->step.integer : 0;
     }
     printf("P stage=%d kind=%s kernel=%s L=%d M=%d rational=%d n=%d pre=%d prePost=%d preload=%d phaseBits=%d hiprec=%d"
-        " stepWhole=%" PRId64 " stepLs=%" PRIu64 " atWhole=%" PRId64 " mult=%.17g phase0=%.17g dftLen=%d numTaps=%d postPeak=%d blockLen=%d\n",
+        " stepWhole=%" PRId64 " stepLs=%" PRIu64 " atWhole=%" PRId64 " mult=%.17g phase0=%.17g dftLen=%d numTaps=%d postPeak=%d blockLen=%d dftStep=%d\n",
         i, kind, c? c + 1 : "", L, M, rational, s->n, s->pre, s->pre_post, s->preload, s->phase_bits,
         (int)s->use_hi_prec_clock, (int64_t)s->step.whole, (uint64_t)s->step.fix.ls.all, (int64_t)s->at.whole, s->mult, s->phase0,
-        d? d->dft_length : 0, d? d->num_taps : 0, d? d->post_peak : 0, isdft? s->block_len : 0);
+        d? d->dft_length : 0, d? d->num_taps : 0, d? d->post_peak : 0, isdft? s->block_len : 0, isdft? s->step.integer : 0);
   }
 }
 
